@@ -1466,7 +1466,7 @@ const MERGEABLE_OBJECT_SCHEMA_KEYS = new Set([
 // Merges object schemas (closed, or with an index signature printed as additionalProperties) into one object schema.
 // A property holds the schemas of every member that declares it and the index signature schema of every member that does not.
 function tryMergeAllOfObjectSchemas(schemas: JSONSchema7[]): JSONSchema7 | null {
-  const declaredBy: Record<string, JSONSchema7Definition[]> = {};
+  const declaredBy: Record<string, JSONSchema7Definition[]> = Object.create(null);
   const required = new Set<string>();
 
   for (const schema of schemas) {
@@ -1497,7 +1497,7 @@ function tryMergeAllOfObjectSchemas(schemas: JSONSchema7[]): JSONSchema7 | null 
 
   const properties: Record<string, JSONSchema7Definition> = {};
   for (const [key, values] of Object.entries(declaredBy)) {
-    properties[key] = intersectSchemaDefinitions(values);
+    setOwnValue(properties, key, intersectSchemaDefinitions(values));
   }
   const indexSchemas = schemas
     .map((it) => it.additionalProperties)
@@ -2165,10 +2165,10 @@ export class ObjectRuntype extends BaseRuntype {
       const raw = item.schema(ctx);
       const rewrite = removeNullUnionBranch(raw);
       if (rewrite != null) {
-        properties[k] = rewrite;
+        setOwnValue(properties, k, rewrite);
         optionalized.add(k);
       } else {
-        properties[k] = raw;
+        setOwnValue(properties, k, raw);
         if (item instanceof OptionalFieldRuntype) {
           // e.g. `a?: null`: nothing to strip from the schema, but the property is still optional
           optionalized.add(k);
